@@ -173,6 +173,12 @@ StarC  == [Star EXCEPT !.ach = (1 :> ("broken" :> T1p @@ "formed" :> T1m)),
 ChainC == [Chain EXCEPT !.bch = ({2,3} :> ("broken" :> P23 @@ "fleeting" :> R23p)),
                         !.bd[{1,2}].role = "broken", !.bst = ({3,4} :> D("PlanarBond", <<2, NoAtom, 3, 4, NoAtom, NoAtom>>, 0))]
 
+(* descriptors whose ligands are not (or no longer) atoms of the graph *)
+Lone  == [EmptyGraph(Kind) EXCEPT !.el = (1 :> 6), !.aat = (1 :> Emp)]
+LoneT == [Lone EXCEPT !.ast = (1 :> T1p)]
+LoneC == [Lone EXCEPT !.ach = (1 :> ("fleeting" :> T1m))]
+T5    == D("Tetrahedral", <<1, 2, 3, 4, 5>>, 1)     \* mentions the fresh identifier
+
 (* all small graphs: atoms S, elements, one optional atom attribute on the   *)
 (* least atom, every bond pattern with roles, one optional bond attribute    *)
 RolesOfKind == IF HasRoles(Kind) THEN Roles ELSE {"none"}
@@ -193,8 +199,8 @@ GenSmall ==
 
 Seeds == CASE SeedSet = "empty"  -> { EmptyGraph(Kind) }
            [] SeedSet = "stereo" -> { EmptyGraph(Kind), Star, Chain } \cup
-                                    (IF HasStereo(Kind) THEN { StarT, ChainP } ELSE {}) \cup
-                                    (IF HasChanges(Kind) THEN { StarC, ChainC } ELSE {})
+                                    (IF HasStereo(Kind) THEN { StarT, ChainP, LoneT } ELSE {}) \cup
+                                    (IF HasChanges(Kind) THEN { StarC, ChainC, LoneC } ELSE {})
            [] SeedSet = "gen"    -> GenSmall
            [] SeedSet = "gen+stereo" -> GenSmall \cup { Star, Chain } \cup
                                     (IF HasStereo(Kind) THEN { StarT, ChainP } ELSE {}) \cup
